@@ -54,6 +54,24 @@ MAXOBJ = 5
 MAXLEN = 120
 
 
+# value-domain stream: cells that are NOT small integers.  The operations only move cells around
+# (no cast when every column has ONE dtype and no conversion is asked for), so the model can work on
+# order-preserving integer TOKENS for the cells; any rounding / truncation / float32 round trip in
+# the implementation produces a value outside the pool and is reported.
+_F = [float('-inf'), -1e300, -7.25, -0.5, 1e-300, 0.1, 0.5, 3.0, 16777216.0, 16777217.0, 123456789.125,
+      2.0 ** 53 + 2, 1e300, float('inf'), float('nan')]
+_I = [-2 ** 62, -2 ** 40 - 1, -32769, -1, 0, 1, 32768, 16777217, 2 ** 31, 2 ** 40 + 1, 2 ** 62]
+POOL = {'f64': (3, _F), 'i64': (2, _I)}
+
+
+def tok_of(valdom, v):
+    pool = POOL[valdom][1]
+    for i, p in enumerate(pool):
+        if p == v or (isinstance(p, float) and p != p and v != v):
+            return i
+    return -999999
+
+
 def fname(n):
     return f'f{n}'
 
@@ -80,13 +98,23 @@ def mk_keep(op):
 class Impl:
     """the real objects + an independent plain-table reference (rows = dicts)"""
 
-    def __init__(self, DFRA):
+    def __init__(self, DFRA, valdom=None):
         self.DFRA = DFRA
+        self.valdom = valdom
         self.objs = []
         self.refs = []          # per object: {'names': [..], 'rows': [dict]}
 
     def arr(self, b):
+        if self.valdom:
+            dt, pool = POOL[self.valdom]
+            return np.array([pool[t] for t in b[1]], dtype=DT[dt])
         return np.array(b[1], dtype=DT[b[0]])
+
+    def enc(self, values):
+        """cells as the model sees them (integers; tokens in the value-domain stream)"""
+        if self.valdom:
+            return [tok_of(self.valdom, v) for v in values]
+        return [int(v) if float(v) == int(v) else float(v) for v in values]
 
     def step(self, op):
         """execute one op; returns (outcome, extra) and updates the reference on success"""
@@ -101,6 +129,20 @@ class Impl:
                 for n, b in op['cols']:
                     data[fname(n)] = self.arr(b)
                     self.args.append(('constructor column ' + fname(n), data[fname(n)], data[fname(n)].copy(), not op['copy']))
+                sk = op.get('srckind', 'dict')
+                if sk == 'none':
+                    data = None
+                elif sk == 'ndarray':
+                    # structured numpy array through NDArrayDataTableAccessor (the path every loader uses)
+                    rec = np.empty((len(next(iter(data.values()))),), dtype=[(k_, v_.dtype) for k_, v_ in data.items()])
+                    for k_, v_ in data.items():
+                        rec[k_] = v_
+                    self.args = [('structured array', rec, rec.copy(), not op['copy'])]
+                    data = rec
+                elif sk == 'parquet':
+                    import pyarrow as pa
+                    data = pa.table({k_: v_ for k_, v_ in data.items()})
+                    self.args = []
                 kw = {}
                 if op['keep'] is not None:
                     kw['keep_fields'] = mk_keep(op)
@@ -128,7 +170,7 @@ class Impl:
                     vals[n] = v
                 nrows = len(vals[names[0]]) if names else 0
                 rows = [{n: vals[n][i] for n in names} for i in range(nrows)]
-                self.refs.append({'names': names, 'rows': rows})
+                self.refs.append({'names': names, 'rows': rows, 'n': nrows if names else length})
             elif k == 'from':
                 a = self.objs[op['src']]
                 kw = {}
@@ -146,7 +188,7 @@ class Impl:
                 r = self.refs[op['src']]
                 names = [n for n in r['names'] if op['keep'] is None or n in op['keep']]
                 rows = [{n: row.get(n) for n in names} for row in r['rows']] if names else []
-                self.refs.append({'names': names, 'rows': rows, 'undefined': r.get('undefined', False)})
+                self.refs.append({'names': names, 'rows': rows, 'n': r.get('n', len(rows)), 'undefined': r.get('undefined', False)})
             elif k == 'select':
                 a = self.objs[op['src']]
                 sel = self.sel(op['sel'])
@@ -155,9 +197,14 @@ class Impl:
                 self.objs.append(o)
                 self._impl_done = True
                 r = self.refs[op['src']]
-                pos = self.positions(op['sel'], len(r['rows']))
+                n_src = r.get('n', len(r['rows']))
+                pos = self.positions(op['sel'], n_src)
                 rows = [dict(r['rows'][p]) for p in pos] if (r['names'] and not r.get('undefined')) else []
-                self.refs.append({'names': list(r['names']), 'rows': rows, 'undefined': r.get('undefined', False)})
+                self.refs.append({'names': list(r['names']), 'rows': rows, 'n': len(pos), 'undefined': r.get('undefined', False)})
+                valid = all(0 <= p < n_src for p in pos) and (op['sel'][0] != 'mask' or len(op['sel'][1]) == n_src)
+                if not r['names'] and not r.get('undefined') and not valid:
+                    # a plain table without columns still has rows: an index out of range must raise
+                    return 'Done', ('zero-field-selection-unchecked', {'rows': n_src, 'selector': op['sel'][1][:6]})
             elif k == 'setsel':
                 o = self.objs[op['t']]
                 a = self.objs[op['src']]
@@ -188,6 +235,8 @@ class Impl:
                 ra = self.refs[op['src']]
                 if ra.get('undefined'):
                     r['undefined'] = True
+                if 'n' in r and 'n' in ra:
+                    r['n'] = r['n'] + ra['n']
                 if r['names'] and not r.get('undefined'):
                     r['rows'] = r['rows'] + [{n: row[n] for n in r['names']} for row in ra['rows']]
             elif k in ('append_field', 'setitem'):
@@ -229,7 +278,7 @@ class Impl:
                 else:
                     r['undefined'] = True      # not a plain-table operation: the reference gives up on this object
             elif k == 'tidy':
-                self.objs[op['t']].tidy_up([fname(n) for n in op['keep']])
+                self.objs[op['t']].tidy_up(mk_keep(op))
                 self._impl_done = True
                 r = self.refs[op['t']]
                 if not r.get('undefined'):
@@ -296,7 +345,7 @@ class Impl:
         for o in self.objs:
             cols = []
             for nm, a in o._data_fields.items():
-                cols.append((fnum(nm), DTN.get(a.dtype, -1), [int(v) if float(v) == int(v) else float(v) for v in a.tolist()]))
+                cols.append((fnum(nm), DTN.get(a.dtype, -1), self.enc(a.tolist())))
                 arrays.append(a)
             ind = o._indices
             if ind is not None:
@@ -420,7 +469,7 @@ def loc_pattern(locs):
 
 def _table_state(o):
     return ([n for n in o._data_fields], [a.dtype.str for a in o._data_fields.values()],
-            [a.tolist() for a in o._data_fields.values()], len(o),
+            [a.tobytes() for a in o._data_fields.values()], len(o),
             None if o._indices is None else o._indices.tolist(), list(o._field_name_list))
 
 
@@ -438,26 +487,36 @@ def history_probes(ctx, impl, site, case, op):
         if o._indices is not None:
             entries.append((oi, '<indices>', o._indices))
     snaps = [a.copy() for _, _, a in entries]
-    try:
-        for _, _, a in entries:
-            np.add(a, 1, out=a, casting='unsafe')
-        bad = [i for i, (_, _, a) in enumerate(entries) if not np.array_equal(a, snaps[i] + 1)]
-    finally:
-        for _, _, a in entries:
-            np.subtract(a, 1, out=a, casting='unsafe')
+    if impl.valdom:
+        # cells may be NaN / huge / non-integer: negate in place (exact, an involution) and compare bytes
+        try:
+            for _, _, a in entries:
+                np.negative(a, out=a)
+            bad = [i for i, (_, _, a) in enumerate(entries) if a.tobytes() != np.negative(snaps[i]).tobytes()]
+        finally:
+            for _, _, a in entries:
+                np.negative(a, out=a)
+    else:
+        try:
+            for _, _, a in entries:
+                np.add(a, 1, out=a, casting='unsafe')
+            bad = [i for i, (_, _, a) in enumerate(entries) if not np.array_equal(a, snaps[i] + 1)]
+        finally:
+            for _, _, a in entries:
+                np.subtract(a, 1, out=a, casting='unsafe')
     if bad:
         who = [(entries[i][0], entries[i][1]) for i in bad[:4]]
         ctx.violation(site, 'write-through-aliasing',
                       f'writing once into every live array moved elements of {who} twice: the arrays overlap '
                       '(a write through one table is seen by another table / column)',
                       case=case, impl=who, predicate='selections, copies and columns share no memory (mutate-and-compare, both directions)')
-    restored = [i for i, (_, _, a) in enumerate(entries) if not np.array_equal(a, snaps[i])]
+    restored = [i for i, (_, _, a) in enumerate(entries) if a.tobytes() != snaps[i].tobytes()]
     if restored and not bad:
         ctx.violation(site, 'write-through-aliasing', 'arrays not restored after the probe', case=case, impl=restored[:4])
     # (2) arguments are inputs
     live = [a for _, _, a in entries]
     for what, arr, snap, stored in getattr(impl, 'args', []):
-        if arr.shape != snap.shape or not np.array_equal(arr, snap):
+        if arr.shape != snap.shape or arr.tobytes() != snap.tobytes():
             ctx.violation(site, 'argument-modified', f'the {what} handed to the call was changed by it',
                           case=case, impl=arr.tolist()[:10], predicate='arguments are inputs')
         if not stored and any(arr is b or np.shares_memory(arr, b) for b in live):
@@ -490,7 +549,7 @@ def history_probes(ctx, impl, site, case, op):
         except Exception as ex:
             ctx.violation(site, 'accessor-raises', f'object {oi}: {type(ex).__name__}: {ex}', case=case)
             continue
-        if rec1.dtype != rec2.dtype or rec1.tolist() != rec2.tolist() or n1 != n2 or f1 != f2:
+        if rec1.dtype != rec2.dtype or rec1.tobytes() != rec2.tobytes() or n1 != n2 or f1 != f2:
             ctx.violation(site, 'repeat-differs', f'object {oi}: two identical reads differ', case=case,
                           predicate='an observable is a function of the current table only')
         if _table_state(o) != before:
@@ -498,6 +557,10 @@ def history_probes(ctx, impl, site, case, op):
                           case=case, predicate='observers do not modify the table')
         tw = _table_state(twin)
         # (a table whose last field was removed keeps its length; its copy has no column to take a length from)
+        if tw[3] != before[3] and not before[0]:
+            ctx.violation('DataFieldRecordArray.__init__', 'zero-field-table-loses-length',
+                          f'object {oi} has no field and len {before[3]}; its copy() has len {tw[3]}',
+                          case=case, impl=tw[3], predicate='copy() is an equal, independent table')
         same_len = tw[3] == before[3] or not before[0]
         if (tw[0], tw[1], tw[2], tw[5]) != (before[0], before[1], before[2], before[5]) or not same_len or twin._indices is not None:
             ctx.violation(site, 'copy-twin-differs', f'object {oi}: copy() differs from its origin', case=case,
@@ -509,9 +572,9 @@ def history_probes(ctx, impl, site, case, op):
                           'or with each other', case=case, predicate='returned arrays are owned by the caller')
         # write into what was returned, the table must not move
         for nm in (rec1.dtype.names or []):
-            rec1[nm] += 1
+            rec1[nm] = -rec1[nm]
         for a in twin._data_fields.values():
-            np.add(a, 1, out=a, casting='unsafe')
+            np.negative(a, out=a)
         if _table_state(o) != before:
             ctx.violation(site, 'returned-array-aliased', f'object {oi}: writing into a copy / record array changed the table',
                           case=case, predicate='returned arrays are owned by the caller')
@@ -554,12 +617,21 @@ def predicates(ctx, impl, ops, stepno, outcome, extra, before):
             ctx.violation(site, 'wrong-field-set', f'object {oi}: fields {keysl}, plain table has {r["names"]}',
                           case=case, impl=obs[oi], predicate='field set equals the plain table')
             continue
-        if r['names'] and n != len(r['rows']):
-            ctx.violation(site, 'wrong-length', f'object {oi}: len {n}, plain table has {len(r["rows"])} rows',
-                          case=case, impl=obs[oi], predicate='length equals the plain table')
+        want_n = r.get('n', len(r['rows']))
+        if n != want_n:
+            if r['names']:
+                ctx.violation(site, 'wrong-length', f'object {oi}: len {n}, plain table has {want_n} rows',
+                              case=case, impl=obs[oi], predicate='length equals the plain table')
+            else:
+                # narrow signature: a table WITHOUT fields that came out of the constructor (copy, keep_fields
+                # filtering everything, selection) forgets its number of rows
+                ctx.violation('DataFieldRecordArray.__init__', 'zero-field-table-loses-length',
+                              f'object {oi} has no field; len {n}, the plain table has {want_n} rows',
+                              case=case, impl=obs[oi], predicate='length equals the plain table (also without columns)')
+            r['n'] = n            # re-synchronise: report once
             continue
         for nm in r['names']:
-            col = o[fname(nm)].tolist() if fname(nm) in o else None
+            col = impl.enc(o[fname(nm)].tolist()) if fname(nm) in o else None
             want = [row[nm] for row in r['rows']]
             if col is None or len(col) != len(want) or any(float(x) != float(y) for x, y in zip(col, want)):
                 ctx.violation(site, 'rows-misaligned', f'object {oi} column {nm}: {str(col)[:80]} expected {str(want)[:80]}',
@@ -581,7 +653,7 @@ def predicates(ctx, impl, ops, stepno, outcome, extra, before):
                 if list(rec.dtype.names or []) != names or len(rec) != (len(o) if names else len(rec)):
                     ok = False
                 for nm in names:
-                    if rec[nm].dtype != o._data_fields[nm].dtype or rec[nm].tolist() != o._data_fields[nm].tolist():
+                    if rec[nm].dtype != o._data_fields[nm].dtype or rec[nm].tobytes() != o._data_fields[nm].tobytes():
                         ok = False
             if not ok:
                 ctx.violation(site, 'accessor-inconsistent', f'object {oi}: __contains__/__getitem__/get_field_dtype/'
@@ -610,6 +682,12 @@ def rename_collision_predicate(ctx, impl, ops, stepno, outcome, names_before):
     m = {a: b for a, b in op['conv'] if a in names_before}
     new = [m.get(n, n) for n in names_before]
     if len(set(new)) != len(new):
+        if len(impl.objs[op['t']]._data_fields) < len(names_before):
+            ctx.violation('DataFieldRecordArray.rename_fields', 'column-lost-on-colliding-rename',
+                          f'fields {names_before} renamed by {op["conv"]}: {len(names_before)} fields before, '
+                          f'{len(impl.objs[op["t"]]._data_fields)} after, no exception',
+                          case={'ops': ops[:stepno + 1]}, impl=list(impl.objs[op['t']]._data_fields),
+                          predicate='renaming never loses a column silently')
         return
     have = sorted(fnum(k) for k in impl.objs[op['t']]._data_fields)
     if have != sorted(new):
@@ -621,10 +699,10 @@ def rename_collision_predicate(ctx, impl, ops, stepno, outcome, names_before):
 
 # ------------------------------------------------------------------ running one sequence
 
-def run_sequence(ctx, DFRA, ops_or_gen, maxlen=None, stop_on_fail=False):
+def run_sequence(ctx, DFRA, ops_or_gen, maxlen=None, stop_on_fail=False, valdom=None):
     """ops_or_gen: list of ops, or a generator function (impl, rng-state) -> op.
     Returns (ops, trace) with trace[i] = (outcome, obs, share pattern)."""
-    impl = Impl(DFRA)
+    impl = Impl(DFRA, valdom)
     ops = []
     trace = []
     before = None
@@ -776,7 +854,16 @@ def gen_random_op(ctx, rng, impl, malformed_p):
         keep, kk = rand_keep(ctx, rng, names)
         conv = rand_conv(rng) if rng.random() < 0.4 else []
         exc = rng.sample(names, rng.randint(0, 1)) if conv else []
-        return {'op': 'ctor', 'cols': cols, 'keep': keep, 'keepkind': kk, 'conv': conv, 'exc': exc, 'copy': rng.random() < 0.5}
+        o_ = {'op': 'ctor', 'cols': cols, 'keep': keep, 'keepkind': kk, 'conv': conv, 'exc': exc, 'copy': rng.random() < 0.5}
+        if len({len(c[1][1]) for c in cols}) == 1:
+            r_ = rng.random()
+            if r_ < 0.3:
+                o_['srckind'] = 'ndarray'
+            elif r_ < 0.42:
+                o_['srckind'] = 'parquet'
+                o_['copy'] = True
+            ctx.count('ctor_source:' + o_.get('srckind', 'dict'))
+        return o_
     if kind == 'from':
         s = pick()
         keep, kk = rand_keep(ctx, rng, names_of(s))
@@ -828,7 +915,12 @@ def gen_random_op(ctx, rng, impl, malformed_p):
         return {'op': 'rename', 't': t, 'conv': list(zip(olds, news)), 'must': rng.random() < 0.4}
     if kind == 'tidy':
         t = pick()
-        return {'op': 'tidy', 't': t, 'keep': rng.sample(range(8), rng.randint(1, 6))}
+        kp = rng.sample(range(8), rng.randint(1, 6))
+        kk = rng.choice(['list', 'list', 'tuple', 'ndarray'])
+        if rng.random() < 0.25:
+            ns_ = names_of(t)
+            kp, kk = [rng.choice(ns_) if ns_ and rng.random() < 0.8 else rng.randrange(8)], 'str'
+        return {'op': 'tidy', 't': t, 'keep': kp, 'keepkind': kk}
     if kind == 'sort':
         t = pick()
         return {'op': 'sort', 't': t, 'name': a_name(t, wrong=bad)}
@@ -840,6 +932,26 @@ def gen_random_op(ctx, rng, impl, malformed_p):
         t = pick()
         return {'op': 'set_dtype', 't': t, 'name': a_name(t, wrong=bad), 'dt': rng.randrange(4)}
     return {'op': 'indices', 't': pick()}
+
+
+def to_valdom(rng, op, valdom):
+    """restrict a generated op to the value-domain stream: one dtype everywhere, no conversion, cells = tokens"""
+    dt, pool = POOL[valdom]
+    n = len(pool)
+
+    def toks(k):
+        return [rng.randrange(n) for _ in range(k)]
+    op = dict(op)
+    if op['op'] in ('convert', 'set_dtype'):
+        return {'op': 'indices', 't': op['t']}
+    if op['op'] == 'ctor':
+        op['cols'] = [(nm, (dt, toks(len(b[1])))) for nm, b in op['cols']]
+        op['conv'], op['exc'] = [], []
+    if op['op'] == 'from':
+        op['conv'], op['exc'] = [], []
+    if 'buf' in op:
+        op['buf'] = (dt, toks(len(op['buf'][1])))
+    return op
 
 
 def rand_sel(rng, n, want, bad, ctx=None):
@@ -1022,11 +1134,158 @@ def corpus():
          {'op': 'ctor', 'cols': [(0, (0, [1, 2])), (1, (3, [3, 4]))], 'keep': [5, 6], 'keepkind': 'tuple', 'conv': [], 'exc': [], 'copy': True},
          {'op': 'ctor', 'cols': [(0, (0, [1, 2])), (1, (3, [3, 4]))], 'keep': [1, 0], 'keepkind': 'ndarray', 'conv': [(3, 1), (1, 0)], 'exc': [], 'copy': False},
          {'op': 'append', 't': 0, 'src': 3}, {'op': 'append_field', 't': 0, 'name': 4, 'buf': (1, [])}],
+        # constructor from a structured array / a pyarrow table / None; tidy_up with a str / tuple / ndarray
+        [{'op': 'ctor', 'cols': [(3, (0, [3, 1, 2])), (0, (3, [30, 10, 20])), (5, (2, [7, 8, 9]))], 'keep': None, 'conv': [], 'exc': [], 'copy': True, 'srckind': 'ndarray'},
+         {'op': 'ctor', 'cols': [(3, (0, [3, 1, 2])), (0, (3, [30, 10, 20])), (5, (2, [7, 8, 9]))], 'keep': [5, 3], 'keepkind': 'tuple', 'conv': [(2, 3)], 'exc': [], 'copy': False, 'srckind': 'ndarray'},
+         {'op': 'ctor', 'cols': [(3, (0, [3, 1, 2])), (0, (3, [30, 10, 20])), (5, (2, [7, 8, 9]))], 'keep': None, 'conv': [(3, 1)], 'exc': [5], 'copy': True, 'srckind': 'parquet'},
+         {'op': 'ctor', 'cols': [], 'keep': None, 'conv': [], 'exc': [], 'copy': True, 'srckind': 'none'},
+         {'op': 'append', 't': 0, 'src': 2}, {'op': 'tidy', 't': 0, 'keep': [0], 'keepkind': 'str'},
+         {'op': 'tidy', 't': 2, 'keep': [5, 0], 'keepkind': 'ndarray'}, {'op': 'tidy', 't': 1, 'keep': [3], 'keepkind': 'tuple'},
+         {'op': 'append_field', 't': 3, 'name': 1, 'buf': (3, [])}, {'op': 'setsel', 't': 1, 'src': 1, 'sel': ('idx', [2, 0, 1])}],
+        # a table beyond 4096 rows (size-gated code paths)
+        [{'op': 'ctor', 'cols': [(0, (2, [(i * 7919) % 4501 - 2000 for i in range(4500)])), (1, (3, [i % 37 for i in range(4500)]))],
+          'keep': None, 'conv': [], 'exc': [], 'copy': True, 'srckind': 'ndarray'},
+         {'op': 'from', 'src': 0, 'keep': None, 'conv': [], 'exc': []},
+         {'op': 'select', 'src': 0, 'sel': ('idx', list(range(100, 4400)))},
+         {'op': 'setsel', 't': 1, 'src': 2, 'sel': ('idx', list(range(150, 4450)))},
+         {'op': 'sort', 't': 1, 'name': 0}, {'op': 'append', 't': 2, 'src': 0}, {'op': 'indices', 't': 2}],
+        # OPEN FINDINGS, hit on every run: tables without fields forget their length in the constructor;
+        # selections of such tables are unchecked; a colliding rename drops a column silently
+        [{'op': 'ctor', 'cols': [(0, (2, [1, 2, 3, 4, 5]))], 'keep': None, 'conv': [], 'exc': [], 'copy': True},
+         {'op': 'remove', 't': 0, 'name': 0}, {'op': 'indices', 't': 0},
+         {'op': 'from', 'src': 0, 'keep': None, 'conv': [], 'exc': []},
+         {'op': 'select', 'src': 0, 'sel': ('idx', [99])},
+         {'op': 'select', 'src': 0, 'sel': ('idx', [0, 4])},
+         {'op': 'append_field', 't': 0, 'name': 1, 'buf': (3, [5, 4, 3, 2, 1])}, {'op': 'sort', 't': 0, 'name': 1}],
+        [{'op': 'ctor', 'cols': [(0, (2, [1, 2, 3])), (1, (3, [4, 5, 6]))], 'keep': [], 'keepkind': 'list', 'conv': [], 'exc': [], 'copy': True},
+         {'op': 'ctor', 'cols': [(0, (2, [1, 2, 3])), (1, (3, [10, 20, 30]))], 'keep': None, 'conv': [], 'exc': [], 'copy': True},
+         {'op': 'rename', 't': 1, 'conv': [(0, 1)], 'must': True}, {'op': 'sort', 't': 1, 'name': 1}],
         # sort + append + indices, selection written back
         [two, {'op': 'indices', 't': 0}, {'op': 'sort', 't': 0, 'name': 0}, {'op': 'append', 't': 0, 'src': 0},
          {'op': 'indices', 't': 0}, {'op': 'select', 'src': 0, 'sel': ('idx', [5, 0])},
          {'op': 'setsel', 't': 0, 'src': 1, 'sel': ('idx', [1, 1])}, {'op': 'append', 't': 1, 'src': 0}, {'op': 'indices', 't': 1}],
     ]
+
+
+def valdom_corpus():
+    """deterministic sequences over non-integer / huge / NaN / float32-sensitive cells (tokens index POOL)"""
+    out = []
+    for vd in ('f64', 'i64'):
+        dt, pool = POOL[vd]
+        n = len(pool)
+        allv = list(range(n))
+        rev = allv[::-1]
+        A = {'op': 'ctor', 'cols': [(0, (dt, allv)), (1, (dt, rev))], 'keep': None, 'conv': [], 'exc': [], 'copy': True}
+        B = {'op': 'ctor', 'cols': [(0, (dt, rev[:4])), (1, (dt, allv[-4:]))], 'keep': None, 'conv': [], 'exc': [], 'copy': False,
+             'srckind': 'ndarray'}
+        out.append((vd, [A, B,
+                         {'op': 'select', 'src': 0, 'sel': ('idx', list(range(2, n - 1)))},
+                         {'op': 'setsel', 't': 0, 'src': 1, 'sel': ('idx', [0, 2, 4, n - 1])},
+                         {'op': 'setsel', 't': 2, 'src': 1, 'sel': ('mask', [True, True, False, True, True] + [False] * (n - 8)), 'via_setitem': True},
+                         {'op': 'append', 't': 1, 'src': 0}, {'op': 'sort', 't': 1, 'name': 0},
+                         {'op': 'from', 'src': 1, 'keep': [1], 'keepkind': 'str', 'conv': [], 'exc': []},
+                         {'op': 'rename', 't': 0, 'conv': [(0, 1), (1, 0)], 'must': True},
+                         {'op': 'setitem', 't': 0, 'name': 0, 'buf': (dt, rev)}, {'op': 'append_field', 't': 2, 'name': 5, 'buf': (dt, allv[:n - 3])},
+                         {'op': 'tidy', 't': 2, 'keep': [5, 1], 'keepkind': 'tuple'}, {'op': 'sort', 't': 0, 'name': 1},
+                         {'op': 'ctor', 'cols': [(0, (dt, allv))], 'keep': None, 'conv': [], 'exc': [], 'copy': True, 'srckind': 'parquet'},
+                         {'op': 'append', 't': 4, 'src': 0}]))
+    return out
+
+
+def cast_probes(ctx, DFRA):
+    """dtype-changing operations on cells where the cast is NOT exact (fractions, 2**53+1, 16777217, 1e10, negative
+    fractions): the result must be bit-identical to numpy's own `astype` / `np.append` (independent oracle)"""
+    f = np.array([0.5, -0.5, 2.7, -2.7, 1e10, 16777217.0, 3.0, -0.0, 123456789.125])
+    i = np.array([2 ** 53 + 1, -2 ** 53 - 1, 16777217, 3, -4, 0, 32768, 2 ** 40 + 1, 7], dtype=np.int64)
+    F64, F32, I64, I32, I16 = (np.dtype(x) for x in (np.float64, np.float32, np.int64, np.int32, np.int16))
+
+    def same(got, want, what):
+        ctx.count('cast_probes')
+        if got.dtype != want.dtype or got.tobytes() != want.tobytes():
+            ctx.violation('DataFieldRecordArray.casts', 'cast-differs-from-numpy', f'{what}: {got.dtype} {got.tolist()[:6]} '
+                          f'expected {want.dtype} {want.tolist()[:6]}', case={'probe': what},
+                          predicate='a dtype conversion is numpy astype, nothing else')
+    with np.errstate(all='ignore'):
+        for (src, conv) in ((f, {F64: F32}), (f, {F64: I64}), (f, {F64: I16}), (i, {I64: F64}), (i, {I64: I32}), (i, {I64: F32}),
+                            (f, {F64: I64, I64: F32}), (i, {I64: F64, F64: I16})):
+            key = next(iter(conv))
+            want = src.astype(conv[key])
+            o = DFRA({'a': src.copy(), 'b': src.copy()})
+            o.convert_dtypes(conv, except_fields=['b'])
+            same(o['a'], want, f'convert_dtypes {conv}')
+            same(o['b'], src, f'convert_dtypes except_fields {conv}')
+            o = DFRA({'a': src.copy()})
+            o.set_field_dtype('a', conv[key])
+            same(o['a'], want, f'set_field_dtype {conv[key]}')
+            for kw in ({'copy': True}, {'copy': False}):
+                o = DFRA({'a': src.copy(), 'b': src.copy()}, dtype_conversions=conv, dtype_conversion_except_fields=['b'], **kw)
+                same(o['a'], want, f'constructor dtype_conversions {conv} {kw}')
+                same(o['b'], src, f'constructor except field {conv} {kw}')
+                c = DFRA(o, dtype_conversions={o['a'].dtype: F64})
+                same(c['a'], o['a'].astype(F64), f'copy with conversion back to float64 {conv}')
+        # promotion in append, cast in set_selection (assignment into the column's dtype)
+        o = DFRA({'a': i.copy()})
+        o.append(DFRA({'a': f.copy()}))
+        same(o['a'], np.append(i, f), 'append int64 + float64')
+        o = DFRA({'a': f.astype(F32)})
+        o.append(DFRA({'a': i.copy()}))
+        same(o['a'], np.append(f.astype(F32), i), 'append float32 + int64')
+        for tgt, srcv in ((f.copy(), i), (i.copy(), f), (f.astype(F32), f), (i.astype(I16), i)):
+            o = DFRA({'a': tgt.copy()})
+            want = tgt.copy()
+            idx = np.array([0, 2, 4, 8])
+            want[idx] = srcv[idx]
+            o.set_selection(idx, DFRA({'a': srcv[idx]}))
+            same(o['a'], want, f'set_selection {srcv.dtype} into {tgt.dtype}')
+            o2 = DFRA({'a': tgt.copy()})
+            m = np.array([True, False] * 4 + [True])
+            want2 = tgt.copy()
+            want2[m] = srcv[m]
+            o2[m] = DFRA({'a': srcv[m]})
+            same(o2['a'], want2, f'__setitem__ mask {srcv.dtype} into {tgt.dtype}')
+
+
+def type_probes(ctx, DFRA):
+    """argument type checks of the public methods: each call must raise TypeError and change nothing"""
+    def fresh():
+        return DFRA({'f0': np.array([3, 1, 2]), 'f1': np.array([1., 2., 3.])})
+    other = fresh()
+    probes = [
+        ('__init__ keep_fields=3', lambda o: DFRA({'a': np.arange(2)}, keep_fields=3)),
+        ('__init__ keep_fields=[1]', lambda o: DFRA({'a': np.arange(2)}, keep_fields=[1])),
+        ('__init__ dtype_conversions=[]', lambda o: DFRA({'a': np.arange(2)}, dtype_conversions=[])),
+        ('__init__ except_fields=3', lambda o: DFRA({'a': np.arange(2)}, dtype_conversion_except_fields=3)),
+        ('__init__ data=object', lambda o: DFRA(object())),
+        ('append ndarray', lambda o: o.append(np.arange(3))),
+        ('append dict', lambda o: o.append({'f0': np.arange(3), 'f1': np.arange(3.)})),
+        ('append_field name=3', lambda o: o.append_field(3, np.arange(3))),
+        ('append_field list', lambda o: o.append_field('x', [1, 2, 3])),
+        ('__setitem__ existing list', lambda o: o.__setitem__('f0', [1, 2, 3])),
+        ('__setitem__ new list', lambda o: o.__setitem__('x', [1, 2, 3])),
+        ('set_selection ndarray', lambda o: o.set_selection(np.array([0]), np.array([1]))),
+        ('__setitem__ idx dict', lambda o: o.__setitem__(np.array([0]), {'f0': np.array([1]), 'f1': np.array([1.])})),
+        ('set_field_dtype str', lambda o: o.set_field_dtype('f0', 'float64')),
+        ('convert_dtypes list', lambda o: o.convert_dtypes([(np.dtype(np.int64), np.dtype(np.float64))])),
+        ('convert_dtypes except=3', lambda o: o.convert_dtypes({}, except_fields=3)),
+        ('tidy_up 3', lambda o: o.tidy_up(3)),
+        ('tidy_up [3]', lambda o: o.tidy_up([3])),
+    ]
+    for what, f in probes:
+        o = fresh()
+        before = _table_state(o)
+        ctx.count('type_probes')
+        try:
+            f(o)
+            ctx.violation('DataFieldRecordArray.type-checks', 'type-check-missing', f'{what}: no TypeError raised',
+                          case={'probe': what}, predicate='wrong argument types are refused with TypeError')
+        except TypeError:
+            pass
+        except Exception as ex:
+            ctx.violation('DataFieldRecordArray.type-checks', 'type-check-missing', f'{what}: {type(ex).__name__} instead of TypeError',
+                          case={'probe': what}, predicate='wrong argument types are refused with TypeError')
+        if _table_state(o) != before or _table_state(other) != _table_state(fresh()):
+            ctx.violation('DataFieldRecordArray.type-checks', 'failed-op-changed-state', f'{what}: the table changed',
+                          case={'probe': what}, predicate='a refused call changes nothing')
 
 
 def cache_words():
@@ -1109,6 +1368,8 @@ def run(ctx):
     for ops in corpus():
         seqs.append(run_sequence(ctx, DFRA, ops))
         ctx.count('corpus_sequences')
+    type_probes(ctx, DFRA)
+    cast_probes(ctx, DFRA)
     for nm, ops in cache_words():
         seqs.append(run_sequence(ctx, DFRA, ops))
         ctx.count('cache_words')
@@ -1132,7 +1393,16 @@ def run(ctx):
         maxlen = rng.choice([3, 6, 10, 20, 40, 40])
         mp = rng.choice([0.0, 0.05, 0.15, 0.4])
         ctx.count(f'random_maxlen:{maxlen}')
-        seqs.append(run_sequence(ctx, DFRA, lambda impl: gen_random_op(ctx, rng, impl, mp), maxlen=maxlen))
+        vd = rng.choice([None, None, None, 'f64', 'i64'])
+        if vd:
+            ctx.count('valdom_sequences:' + vd)
+            seqs.append(run_sequence(ctx, DFRA, lambda impl: to_valdom(rng, gen_random_op(ctx, rng, impl, mp), vd),
+                                     maxlen=maxlen, valdom=vd))
+        else:
+            seqs.append(run_sequence(ctx, DFRA, lambda impl: gen_random_op(ctx, rng, impl, mp), maxlen=maxlen))
+    for vd, ops in valdom_corpus():
+        seqs.append(run_sequence(ctx, DFRA, ops, valdom=vd))
+        ctx.count('valdom_corpus')
     for ops, trace in seqs:
         ctx.case([g_op(o) for o in ops], nontrivial=len(ops) >= 2)
     for ops, trace in seqs[-3:]:
